@@ -1,6 +1,8 @@
 package main
 
 import (
+	"math/big"
+	"math/rand"
 	"encoding/json"
 	"fmt"
 	"os"
@@ -51,8 +53,8 @@ func (rep *report) finish(ld *loaded, known map[string]knownFinding, noReplay bo
 			f := &hr.Sum.Findings[k]
 			key := f.Kind + "|" + f.Label + "|" + f.KnownID
 			perKey[key]++
-			if perKey[key] > 4 {
-				f.Replayed = "not-replayed (more than 4 models for this obligation)"
+			if perKey[key] > 40 {
+				f.Replayed = "not-replayed (more than 40 models for this obligation)"
 				continue
 			}
 			id := fmt.Sprintf("%s-%d", hr.Name, len(refs))
@@ -77,11 +79,43 @@ func (rep *report) finish(ld *loaded, known map[string]knownFinding, noReplay bo
 			byRel[hr.Rel] = append(byRel[hr.Rel], replayItem{ID: id, Harness: hr.Name, Model: m})
 		}
 	}
+	// native probing of obligations the solver left unknown: concrete inputs drawn from the path's input ranges
+	type pref struct {
+		hr    *harnessReport
+		id    string
+		label string
+		model map[string]string
+	}
+	var probeRefs []pref
+	for _, hr := range rep.Harnesses {
+		per := 4000
+		if rep.Tier == "thorough" {
+			per = 20000
+		}
+		rng := rand.New(rand.NewSource(rep.Seed*7919 + int64(len(hr.Name))*104729 + int64(hashString(hr.Name))))
+		for pi, ps := range hr.Sum.Probes {
+			if pi >= 6 {
+				break
+			}
+			for k := 0; k < per; k++ {
+				m := map[string]string{}
+				for n, v := range ps.Fixed {
+					m[n] = v
+				}
+				for n, rg := range ps.Free {
+					m[n] = drawInRange(rng, rg[0], rg[1])
+				}
+				id := fmt.Sprintf("probe-%s-%d-%d", hr.Name, pi, k)
+				probeRefs = append(probeRefs, pref{hr, id, ps.Label, m})
+				byRel[hr.Rel] = append(byRel[hr.Rel], replayItem{ID: id, Harness: hr.Name, Model: m})
+			}
+		}
+	}
 	replays := 0
 	outDir := filepath.Join(verifDir, "out", "replay", rep.Prop)
 	os.RemoveAll(outDir)
 	var results map[string]replayResult
-	if (len(refs) > 0 || len(okRefs) > 0) && !noReplay {
+	if (len(refs) > 0 || len(okRefs) > 0 || len(probeRefs) > 0) && !noReplay {
 		os.Setenv("VERIF_TIER", rep.Tier)
 		var log string
 		var err error
@@ -159,6 +193,40 @@ func (rep *report) finish(ld *loaded, known map[string]knownFinding, noReplay bo
 	violations := 0
 	var violationLines, knownLines, mismatchLines []string
 	knownSeen := map[string]bool{}
+	// probes: a native failure of the very obligation that was unknown is a counterexample
+	probesRun, probeHits := 0, map[string]bool{}
+	for _, p := range probeRefs {
+		res, ok := results[p.id]
+		if !ok {
+			continue
+		}
+		probesRun++
+		hit := false
+		openKnown := false
+		for _, l := range res.Labels {
+			if l == p.label {
+				hit = true
+				for _, id := range res.Known[l] {
+					if k, ok := known[id]; ok && k.Status == "open" {
+						openKnown = true
+					}
+				}
+			}
+		}
+		key := p.hr.Name + "|" + p.label
+		if !hit || openKnown || probeHits[key] {
+			continue
+		}
+		probeHits[key] = true
+		violations++
+		path := filepath.Join(outDir, p.id+".json")
+		rec := map[string]interface{}{"property": rep.Prop, "package": p.hr.Rel, "item": replayItem{ID: p.id, Harness: p.hr.Name, Model: p.model},
+			"label": p.label, "kind": "assert", "detail": "found by native probing of an obligation the solver left unknown", "native": res.Result + " " + res.Msg}
+		data, _ := json.MarshalIndent(rec, "", " ")
+		os.MkdirAll(outDir, 0o755)
+		os.WriteFile(path, data, 0o644)
+		violationLines = append(violationLines, fmt.Sprintf("VIOLATION property=%s replay=%s  (%s assert:%s found by native probing of an obligation the solver left unknown model=%v)", rep.Prop, path, p.hr.Name, p.label, p.model))
+	}
 	for _, r := range refs {
 		res, ok := results[r.id]
 		if !ok {
@@ -297,6 +365,7 @@ func (rep *report) finish(ld *loaded, known map[string]knownFinding, noReplay bo
 		"transitions":                   max1(int(instrs)),
 		"traces_validated_against_impl": replays + selfRun,
 		"translator_validation":         map[string]int{"clean_paths_replayed_natively": selfRun, "agreed": selfAgreed},
+		"unknown_obligation_probes":     map[string]int{"native_runs": probesRun, "counterexamples_found": len(probeHits)},
 		"samples":                       samples,
 		"rule":                          "a state is one feasible path of a harness completed by the symbolic interpreter; transitions are SSA instructions interpreted; every obligation on a path is one solver query over all input values satisfying the path condition",
 		"functions_encoded":             rep.Cfg.Functions,
@@ -381,4 +450,63 @@ func max1(n int) int {
 		return 1
 	}
 	return n
+}
+
+func hashString(s string) uint32 {
+	var h uint32 = 2166136261
+	for i := 0; i < len(s); i++ {
+		h = (h ^ uint32(s[i])) * 16777619
+	}
+	return h
+}
+
+// drawInRange draws an integer from [lo, hi] (decimal strings; "" = unbounded, taken as +-2^62): a mixture of small
+// values, boundary values and uniform draws.
+func drawInRange(rng *rand.Rand, lo, hi string) string {
+	l, h := new(big.Int), new(big.Int)
+	if _, ok := l.SetString(lo, 10); !ok {
+		l.Lsh(big.NewInt(-1), 62)
+	}
+	if _, ok := h.SetString(hi, 10); !ok {
+		h.Lsh(big.NewInt(1), 62)
+	}
+	if l.Cmp(h) >= 0 {
+		return l.String()
+	}
+	clip := func(v *big.Int) *big.Int {
+		if v.Cmp(l) < 0 {
+			return new(big.Int).Set(l)
+		}
+		if v.Cmp(h) > 0 {
+			return new(big.Int).Set(h)
+		}
+		return v
+	}
+	switch r := rng.Intn(10); {
+	case r < 3: // small
+		return clip(big.NewInt(int64(rng.Intn(2001) - 1000))).String()
+	case r < 5: // very small
+		return clip(big.NewInt(int64(rng.Intn(201) - 100))).String()
+	case r < 6: // boundaries
+		c := []*big.Int{l, h, new(big.Int).Add(l, big.NewInt(1)), new(big.Int).Sub(h, big.NewInt(1)), big.NewInt(0)}
+		return clip(c[rng.Intn(len(c))]).String()
+	default: // uniform, with a random magnitude
+		span := new(big.Int).Sub(h, l)
+		bits := span.BitLen()
+		if bits > 1 {
+			span = new(big.Int).Rsh(span, uint(rng.Intn(bits)))
+		}
+		if span.Sign() <= 0 {
+			span = big.NewInt(1)
+		}
+		v := new(big.Int).Rand(rng, span)
+		if rng.Intn(2) == 0 {
+			return clip(new(big.Int).Add(l, v)).String()
+		}
+		// around zero
+		if rng.Intn(2) == 0 {
+			v.Neg(v)
+		}
+		return clip(v).String()
+	}
 }
